@@ -288,18 +288,18 @@ MUTANTS = [
     # ------------------------------------------------------------------ C15
     {"id": "C15-a", "prop": "C15", "fault": True, "expect": "torn-value-accepted under truncation/read errors",
      "file": "libs/core/include/fcppt/io/read.hpp",
-     "old": """  return _stream.read(
-             fcppt::cast::to_char_ptr<char *>(&result),
-             fcppt::cast::size<std::streamsize>(fcppt::cast::to_signed(sizeof(Type))))
-             ? result_type(fcppt::endianness::convert(result, _format))
-             : result_type();""",
+     "old": """  if (!_stream.read(
+          bytes.data(), fcppt::cast::size<std::streamsize>(fcppt::cast::to_signed(sizeof(Type)))))
+  {
+    return result_type();
+  }""",
      "new": """  _stream.read(
-      fcppt::cast::to_char_ptr<char *>(&result),
-      fcppt::cast::size<std::streamsize>(fcppt::cast::to_signed(sizeof(Type))));
+      bytes.data(), fcppt::cast::size<std::streamsize>(fcppt::cast::to_signed(sizeof(Type))));
 
-  return _stream.gcount() != 0
-             ? result_type(fcppt::endianness::convert(result, _format))
-             : result_type();"""},
+  if (_stream.gcount() == 0)
+  {
+    return result_type();
+  }"""},
     {"id": "C15-b", "prop": "C15", "fault": False, "expect": "byte-layout",
      "file": "libs/core/include/fcppt/endianness/convert.hpp",
      "old": "  return _format == std::endian::native ? _value : fcppt::endianness::swap(_value);",
